@@ -120,11 +120,11 @@ theorem no_temporaries (o : Ops V) (rpn : List String) (st : St V) (h : Inv n st
   have hsim := sim_step (n := n) o (.expr rpn) trivial st h
   -- the state after evaluation (before the purge) is aligned, hence has distinct names
   have hev := sim_evaluate (n := n) o rpn st h
-  have hst : (step o (Op.expr rpn) st).2 = (purge (σ := St V) (evaluate o rpn st).2).2 := tryFinally_snd _ _ _
-  have habs : abs (step o (Op.expr rpn) st).2 = (purge (σ := ATab V) (abs (evaluate o rpn st).2)).2 := by
+  have hst : (step o (Op.expr rpn) st).2 = (purgeE (σ := St V) (evaluate o rpn st).2).2 := tryFinally_snd _ _ _
+  have habs : abs (step o (Op.expr rpn) st).2 = (purgeE (σ := ATab V) (abs (evaluate o rpn st).2)).2 := by
     have e1 := hsim.2.1
     have e2 : (step (σ := ATab V) o (Op.expr rpn) (abs st)).2
-        = (purge (σ := ATab V) (evaluate (σ := ATab V) o rpn (abs st)).2).2 := tryFinally_snd _ _ _
+        = (purgeE (σ := ATab V) (evaluate (σ := ATab V) o rpn (abs st)).2).2 := tryFinally_snd _ _ _
     rw [e1] at e2
     simp only at e2
     rw [e2, hev.2.1]
@@ -420,7 +420,7 @@ theorem scalarKind_read_back (o : Ops V) (k : SKind) (inp : String) (arg : V) (o
   | plain s => exact scalarVoid_fn_read_back o s inp arg out st h temp hres
   | divider =>
     unfold scalarKind scalarDivider at hres ⊢
-    by_cases hz : o.isZero arg = true
+    by_cases hz : o.eqZero arg = true
     · simp [hz, M.throw] at hres
     · simp only [hz, Bool.false_eq_true, if_false] at hres ⊢
       exact scalarVoid_fn_read_back o _ inp _ out st h temp hres
@@ -473,13 +473,13 @@ theorem carried_table_aligned (cols : List (String × List V)) (xs ys zs ts : Li
 def iops : Ops Int :=
   { zero := 0, nan := -1000, add := (· + ·), sub := (· - ·), mul := (· * ·), ofNat := Int.ofNat,
     isNaN := fun v => v == -1000, parse := fun s => if s == "2" then some 2 else if s == "3" then some 3 else none,
-    one := 1, div := (· / ·), isZero := fun v => v == 0,
-    pow := fun a b => if b < 0 then (if a == 0 then .error .zerodiv else .ok 0) else .ok (a ^ b.toNat),
-    mod := fun a b => if b == 0 then .error .zerodiv else .ok (a % b),
+    one := 1, divide := (· / ·), eqZero := fun v => v == 0,
+    pow := fun a b => if b < 0 then (if a == 0 then .error .value else .ok 0) else .ok (a ^ b.toNat),
+    mod := fun a b => if b == 0 then .error .value else .ok (a % b),
     lt := fun a b => decide (a < b),
     fn := fun f v => if f == "SQRT" && v < 0 then .error .value else .ok (if f == "ABS" then Int.ofNat v.natAbs else v),
-    agg := fun f l => if f == "AVG" && l.isEmpty then .error .zerodiv else .ok (l.foldl (· + ·) 0),
-    shiftIdx := fun k i m => if m == 0 then .error .zerodiv else .ok ((((i : Int) - k) % (m : Int)).toNat) }
+    agg := fun f l => if f == "AVG" && l.isEmpty then .error .value else .ok (l.foldl (· + ·) 0),
+    shiftIdx := fun k i m => if m == 0 then .error .value else .ok ((((i : Int) - k) % (m : Int)).toNat) }
 
 def t0 : St Int := fresh [10, 11, 12] [20, 22, 24] [30, 33, 36] [1000, 1001, 1002]
 
